@@ -500,14 +500,37 @@ def indices_wiring(ctx, prog, rule):
             "color": ("ColorRed", "ColorGreen", "ColorBlue"), "color_invalid": "IsColorInvalid",
             "intensity": "Intensity", "intensity_invalid": "IsIntensityInvalid", "row": "RowIndex", "column": "ColumnIndex"}
     ctx.ob(rule, "indices/prepare_indices", got == want, "Indices fields <- record names: %s" % got)
-    # the closure looks the name up by position in pc.prototype
-    cls = prog.closures_of(f)
-    okc = False
-    for cl in cls:
-        Rc = Resolver(cl)
-        for bi, t in cl.calls(lambda c, t: c.endswith("::position")):
-            okc = "prototype" in tree_str(Rc.operand(t["args"][0]))
-    ctx.ob(rule, "indices/lookup-by-position", okc, "indices are positions in pc.prototype")
+    lookup_by_position(ctx, prog, rule)
+
+
+def lookup_by_position(ctx, prog, rule):
+    """the indices used to read a point's values are positions in the *whole* prototype (values are stored in prototype
+    order, extension attributes included): position() runs directly over pc.prototype.iter(), not over a filtered or
+    shifted view of it"""
+    f = prog.fn(PRS + "prepare_indices")
+    ctx.fn_seen(f)
+    okc, desc, n = True, [], 0
+    for g in [f] + list(prog.closures_of(f)):
+        Rc = Resolver(g)
+        for bi, t in g.calls(lambda c, t: c.endswith("::position") or c.endswith("::rposition")):
+            n += 1
+            recv = Rc.operand(t["args"][0])
+            x = recv
+            adapters = []
+            for _ in range(8):
+                if x[0] == "call" and x[2] and x[1].rsplit("::", 1)[-1] in ("iter", "into_iter", "deref", "as_slice", "as_ref", "borrow", "by_ref", "copied", "cloned"):
+                    x = x[2][0]
+                    continue
+                if x[0] == "call" and x[2] and "Iterator" in x[1]:
+                    adapters.append(x[1].rsplit("::", 1)[-1])
+                    x = x[2][0]
+                    continue
+                break
+            xs = strip(x)
+            whole = xs[0] == "field" and xs[2] == "prototype"
+            desc.append("%s over %s%s" % (short(callee_of(t)), tree_str(strip_deep(xs))[:60], (" through " + ",".join(adapters)) if adapters else ""))
+            okc = okc and whole and not adapters and callee_of(t).endswith("::position")
+    ctx.ob(rule, "indices/lookup-by-position", okc and n >= 1, "indices are positions in the whole pc.prototype: %s" % desc)
 
 
 def pop_point_tables(ctx, prog, rule):
